@@ -338,6 +338,9 @@ def run(ck):
         if v == 0:
             continue
         udis += 1
+        if nviol[0] >= 5:
+            nviol[0] += 1
+            continue
         rep = {"property": PID, "part": "ast.Unescape", "kind": "unescape", "b": b64(s), "text": s.decode("latin-1"), "isBytes": isb,
                "impl": o, "source": src, "model": ck.coq_show(PID, "show_unescape " + cq_unescape(s, isb, o.get("out", {"k": "panic"})))[:600]}
         if v == 2:
@@ -385,6 +388,9 @@ def run(ck):
         if v == 0:
             continue
         sdis += 1
+        if nviol[0] >= 5:
+            nviol[0] += 1
+            continue
         shape, d = scases[i]
         o = souts[i]["out"]
         rep = {"property": PID, "part": "SimpleColumn.ReadInto", "kind": "sc", "b": b64(d), "text": d.decode("latin-1"), "source": shape,
